@@ -139,6 +139,24 @@ func runHistory(cs CaseSpec, mk func(nw *Network) []Monitor, after func(nw *Netw
 		}
 	}
 	nw.Mons = mk(nw)
+	nw.SubmitViaProxy = cs.I("viaproxy", 0) == 1
+	if p := cs.I("loseack", 0); p > 0 {
+		// now and then a node's application processes a block but its
+		// acknowledgement is lost (the commit call returns an error)
+		lr := cs.rng("loseack")
+		nw.AfterStepHook = func(nw *Network) {
+			if lr.Intn(1000) < int(p) {
+				up := nw.upReal()
+				if len(up) > 0 {
+					x := up[lr.Intn(len(up))]
+					if x.App != nil && x.App.LoseAck == 0 {
+						x.App.LoseAck = 1
+						nw.Res.count("commit_acknowledgements_to_be_lost", 1)
+					}
+				}
+			}
+		}
+	}
 	sp := specFromCase(cs)
 	nw.RunSchedule(sp)
 	cycles, idle := 0, false
@@ -308,7 +326,15 @@ func init() {
 		Rule:          "one case = one seeded nodesim history with unique-id transactions; every delivered block of every node is joined with the harness's own DAG record (parents, payload): ancestors' payload first, events whole/once/contiguous, block = concatenation of its frame; non-trivial: >=20 events and >=3 blocks",
 		Assumptions:   []string{"the harness's DAG record is built from what stores expose after every step", "nodes reset by fast-sync are not required to deliver what was committed before their anchor"},
 		MinNontrivial: 10,
-		Cases:         func(tier string, seed int64) []CaseSpec { return chainCases(tier, seed+104729, 48, 640, true) },
+		Cases: func(tier string, seed int64) []CaseSpec {
+			cs := chainCases(tier, seed+104729, 48, 640, true)
+			for i := range cs {
+				if i%4 == 1 {
+					cs[i].P["loseack"] = int64(20 + 10*(i%3))
+				}
+			}
+			return cs
+		},
 		Run: func(cs CaseSpec) *CaseResult {
 			return runHistory(cs, func(nw *Network) []Monitor { return []Monitor{NewMonCausality()} }, nil)
 		},
@@ -323,6 +349,7 @@ func init() {
 			cs := chainCases(tier, seed+15485863, 48, 640, true)
 			for i := range cs {
 				cs[i].P["dupcontent"] = int64(i % 2)
+				cs[i].P["viaproxy"] = int64((i / 2) % 2)
 				if i%3 == 1 {
 					cs[i].P["cbtx"] = 30
 				}
